@@ -1,26 +1,27 @@
 #!/bin/bash
-# usage: seed_matrix.sh [seed-id ...]   - runs each seeded change against the quick check of its property
-# in a scratch worktree of /repo's HEAD (so /repo itself stays untouched) and records the outcome.
+# usage: [VERIF_DIR=<snapshot>] seed_matrix.sh [seed-id ...]
+# Runs each seeded change against the quick check of its property in a scratch worktree of /repo's HEAD
+# (/repo itself stays untouched) and records the outcome in <verif>/seeded/<id>/result.txt.
 export GOFLAGS=-mod=mod GOPROXY=off GOSUMDB=off GOTOOLCHAIN=local
-WT=/tmp/wtm
-git -C /repo worktree remove --force $WT >/dev/null 2>&1
+V=${VERIF_DIR:-/verif}
+WT=/tmp/wtm-$$
 git -C /repo worktree add -q --detach $WT HEAD || exit 2
 trap 'git -C /repo worktree remove --force $WT >/dev/null 2>&1' EXIT
 SEEDS="$@"
-[ -z "$SEEDS" ] && SEEDS=$(ls /verif/seeded)
+[ -z "$SEEDS" ] && SEEDS=$(ls $V/seeded)
 for S in $SEEDS; do
-  P=/verif/seeded/$S/patch.diff
+  P=$V/seeded/$S/patch.diff
   PROP=${S%%-*}
   git -C $WT checkout -q -- . ; git -C $WT clean -fdq
   if ! git -C $WT apply $P 2>/dev/null; then
-    if ! git -C $WT apply --3way $P >/dev/null 2>&1; then echo "$S: patch does not apply to HEAD" | tee /verif/seeded/$S/result.txt; continue; fi
+    if ! git -C $WT apply --3way $P >/dev/null 2>&1; then echo "$S: patch does not apply to HEAD" | tee $V/seeded/$S/result.txt; continue; fi
   fi
   t0=$(date +%s)
-  out=$(cd /verif && VERIF_REPO=$WT timeout 2400 ./bin/vcheck run --repo $WT --prop $PROP 2>&1)
+  out=$(cd $V && timeout 2400 ./bin/vcheck run --repo $WT --verif $V --prop $PROP 2>&1)
   rc=$?
   t1=$(date +%s)
   {
-    echo "seed=$S property=$PROP exit=$rc wall=$((t1-t0))s commit=$(git -C /verif log --format=%h -1)"
-    echo "$out" | grep -E '^(VIOLATION|INCONCLUSIVE|STALE|ENGINE|VACUOUS)' | sed "s#$WT#/repo#g" | cut -c1-300 | head -6
-  } | tee /verif/seeded/$S/result.txt
+    echo "seed=$S property=$PROP exit=$rc wall=$((t1-t0))s verif_commit=$(git -C $V log --format=%h -1) repo_commit=$(git -C /repo log --format=%h -1)"
+    echo "$out" | grep -E '^(VIOLATION|INCONCLUSIVE|STALE|ENGINE|VACUOUS)' | sed "s#$WT#/repo#g; s#$V#/verif#g" | cut -c1-300 | head -6
+  } | tee $V/seeded/$S/result.txt
 done
